@@ -432,13 +432,15 @@ def run_C07(ctx, proof_ok):
     n5, d5 = c07.ndim_mismatch_sweep(r, E)
     n6, d6 = c07.grid3_vs_scalar(lib.rng(707), E, budget(ctx.tier, 30, 600))
     n7, d7 = c07.batched_ops_vs_scalar(lib.rng(708), E, budget(ctx.tier, 40, 800))
-    ctx.violations.extend(d1 + d2 + d3 + d4 + d5 + d6 + d7)
+    n8, d8 = c07.shape_helpers_vs_model(lib.rng(709), budget(ctx.tier, 400, 8000))
+    n4 += n8
+    ctx.violations.extend(d1 + d2 + d3 + d4 + d5 + d6 + d7 + d8)
     return {"evaluations": n1 + n2 + n3 + n4 + n5 + n6 + n7, "distinct_nontrivial": n1 + n2 + n5 + n6 + n7,
             "rule": "metamorphic search on the real code: sequences of T/E/P/Phi/R/PD/S/SPOILER whose parameters are arrays over "
                     "sub-shapes (singleton axes, fewer axes) of a random grid, with identity-named first-order declarations and "
                     "automatic second order; vectorised simulate() (ADC, Z0, Jacobian, Hessian) vs the scalar simulation at EVERY "
                     "index of the broadcast grid, output shape = (nADC,)+getshape; `axes=` vs explicit singleton axes; incompatible "
-                    "shapes must raise; common.broadcast_shapes/broadcastable vs the Lean shape model; three parameters on three "
+                    "shapes must raise; common.broadcast_shapes/broadcastable/set_axes (int and tuple axes)/expand_shapes vs the Lean shape model; three parameters on three "
                     "grid axes through `axes=` with first/second derivatives of E/P/T/Phi vs scalar runs; D with an array of "
                     "diffusion times, S with one shift per batch entry (same or lower rank than the grid, equal or different "
                     "patterns, integer and gridded) vs scalar runs of the F0/Z0 signals",
@@ -1213,7 +1215,7 @@ EXTRA_MODULES = {
     "C04": ["EpgVerif.Tie.ShiftSites", "EpgVerif.Props.C04Multi", "EpgVerif.Props.C04Grid"],
     "C05": ["EpgVerif.Tie.PhysSites", "EpgVerif.Props.C05Path", "EpgVerif.Props.C05Att"],
     "C06": ["EpgVerif.Tie.PhysSites", "EpgVerif.Tie.Exchange"],
-    "C07": ["EpgVerif.Tie.ApplySites"],
+    "C07": ["EpgVerif.Tie.ApplySites", "EpgVerif.Props.C07Axes"],
     "C08": ["EpgVerif.Tie.ApplySites", "EpgVerif.Tie.ShiftSites", "EpgVerif.Props.C04", "EpgVerif.Props.C13Cap", "EpgVerif.Props.C08Merge"],
     "C09": ["EpgVerif.Tie.PuritySites"],
     "C10": ["EpgVerif.Tie.ApplySites", "EpgVerif.Props.C10Second"],
